@@ -98,7 +98,7 @@ def run(ctx):
     mats = [("default:%r" % (k,), m) for k, m in QUANTISATION_MATRICES.items()]
     for i in range(ctx.pick(300, 3000)):
         d, dh = rng.randrange(0, 5), rng.randrange(0, 5)
-        top = rng.choice([3, 8, 40, 127])
+        top = rng.choice([3, 8, 40, 127, 248, 249, 255, 256, 300, 1000])     # entries are unbounded exp-Golomb values
         m = {0: ({"L": rng.randrange(top + 1)} if dh else {"LL": rng.randrange(top + 1)})}
         for lvl in range(1, dh + 1):
             m[lvl] = {"H": rng.randrange(top + 1)}
